@@ -607,7 +607,7 @@ def run(ctx):
                                                      "sequential branch); 1e-12 float clause validated_only on pools of 1..16 threads; Simpson checked exactly on cubics across the 128 threshold",
         "range functions bit-identical across schedules": "census of every parallel call site proved sound (C15_par_sites_sound: each descriptor classifies to a shape whose driver theorem holds); "
                                                           "all eight range functions x five space representations compared element-wise bit-exactly on pools of 1..16 threads; "
-                                                          "KNOWN FINDING F16: the singles ranges (and ranges with Simpson >= 128 slices) are NOT bit-identical (each point is a parallel quadrature); "
+                                                          "KNOWN FINDING F18: the singles ranges (and ranges with Simpson >= 128 slices) are NOT bit-identical (each point is a parallel quadrature); "
                                                           "they are additionally held to 1e-12 per element",
         "detailed reduction-site table (sources, bindings, closures)": "pinned, not proved (C15_call_sites)",
         "rayon's scheduler": "modelled as any split tree; additionally bridge with an explicit steal oracle (C15_bridge_any_steals), validated against the real rayon via a logging producer",
